@@ -529,9 +529,21 @@ pub fn insert_trivia(text: &str, seed: u64) -> String {
             {
                 // a comment next to '/' or '*' would form another comment delimiter
                 let near_slash = matches!(p, '/' | '*') || matches!(chars[i], '/' | '*');
-                let choice = rng.below(6) as usize;
-                let t = [" ", "\t", "/*t*/", " /* t */ ", "\\\n", "  \\\n  "][choice];
-                out.push_str(if near_slash && t.contains("/*") { " " } else { t });
+                let choice = rng.below(8) as usize;
+                let t = [" ", "\t", "/*t*/", " /* t */ ", "\\\n", "  \\\n  ", "\n", " \n  "][choice];
+                // a bare line break between a name and "(" is left out: whether a function-like
+                // macro use may be split there is not what the statement's two exceptions settle
+                // RSSL does not look across a bare line break for the "(" of a function-like macro
+                // use; whether it should is not what the statement's two exceptions settle. So a
+                // bare line break is only inserted where it cannot end up between a name and "("
+                // after argument substitution either: in front of "," ")" and ";"
+                let bare_newline = t.contains('\n') && !t.contains('\\');
+                let newline_ok = matches!(chars[i], ',' | ')' | ';');
+                out.push_str(if near_slash && t.contains("/*") || bare_newline && !newline_ok {
+                    " "
+                } else {
+                    t
+                });
             }
             out.extend(&chars[i..j]);
             if k != K::Space {
@@ -540,6 +552,19 @@ pub fn insert_trivia(text: &str, seed: u64) -> String {
             i = j;
         }
         out.push_str(&line[body.len()..]);
+    }
+    // the end of the file is a token boundary too: a splice after the last line
+    if out.ends_with('\n') && !out.ends_with("\\\n") && rng.chance(1, 5) {
+        if rng.chance(1, 2) {
+            // the last line itself ends in a splice
+            out.pop();
+            if out.ends_with('\r') {
+                out.pop();
+            }
+            out.push_str(" \\\n");
+        } else {
+            out.push_str(["\\\n", "  \\\n", "\\\n\n"][rng.below(3) as usize]);
+        }
     }
     out
 }
